@@ -52,6 +52,8 @@ import (
 
 const c26Unit = time.Second
 
+var c26WalkSeq int
+
 var c26T0 = time.Date(2030, 1, 1, 0, 0, 0, 0, time.UTC)
 
 // ---------------------------------------------------------------------------
@@ -192,6 +194,7 @@ type c26World struct {
 	arrived int
 	seen    map[string]int
 	auto    bool
+	id      string
 	sig     c26Signal
 	clock   *clockwork.FakeClock
 }
@@ -294,8 +297,9 @@ func c26Handler(host string) http.HandlerFunc {
 	return func(w http.ResponseWriter, r *http.Request) {
 		body, rerr := io.ReadAll(r.Body)
 		wd := c26Cur.Load()
-		if wd == nil {
-			http.Error(w, "no walk", http.StatusInternalServerError)
+		if wd == nil || r.Header.Get("X-C26-Walk") != wd.id {
+			// a straggler of an abandoned earlier walk: not this walk's business
+			http.Error(w, "no such walk", http.StatusInternalServerError)
 			return
 		}
 		req := &c26Req{host: host, key: r.Header.Get("X-Honeycomb-Team"), body: len(body), reply: make(chan string, 1)}
@@ -548,12 +552,13 @@ func (h *c26Harness) Reset(init map[string]any) error {
 	h.clock = clockwork.NewFakeClockAt(c26T0)
 	h.met = c26NewMetrics(h.sig)
 	h.log = &c26Logger{errIDs: map[int]bool{}}
-	h.wd = &c26World{seen: map[string]int{}, sig: h.sig, clock: h.clock}
+	c26WalkSeq++
+	h.wd = &c26World{seen: map[string]int{}, sig: h.sig, clock: h.clock, id: strconv.Itoa(c26WalkSeq)}
 	c26Cur.Store(h.wd)
 	h.nEvents, h.stopBegun, h.stuck = 0, false, ""
 	h.stopDone = make(chan struct{})
 
-	dt := NewDirectTransmission(types.TransmitTypeUpstream, c26Tr, maxBatch, time.Duration(4*sub)*c26Unit, time.Hour, false, nil)
+	dt := NewDirectTransmission(types.TransmitTypeUpstream, c26Tr, maxBatch, time.Duration(4*sub)*c26Unit, time.Hour, false, map[string]string{"X-C26-Walk": h.wd.id})
 	dt.Clock = h.clock
 	dt.Logger = h.log
 	dt.Metrics = h.met
@@ -603,16 +608,28 @@ func (h *c26Harness) counts() c26Wait {
 // the code has overshot all of them and after a long deadline otherwise; in
 // both cases the code has left the specification and Project shows where it is.
 func (h *c26Harness) barrier(waits []c26Wait) {
-	timer := time.NewTimer(15 * time.Second)
+	// The deadline only matters once the code has left the specification. It is
+	// restarted whenever anything moves and has to expire twice in a row, so that
+	// a test process that was frozen by an overloaded machine is not mistaken for
+	// a stuck transmission.
+	const patience = 15 * time.Second
+	timer := time.NewTimer(patience)
 	defer timer.Stop()
+	strikes := 0
 	for {
 		o := h.counts()
 		over := true
 		for _, w := range waits {
 			if o.reqs == w.reqs && o.downs == w.downs && o.stale == w.stale && o.stopped == w.stopped {
-				ctx, cancel := context.WithTimeout(context.Background(), 15*time.Second)
-				err := h.clock.BlockUntilContext(ctx, h.tickers()+w.sleepers)
-				cancel()
+				var err error
+				for try := 0; try < 2; try++ {
+					ctx, cancel := context.WithTimeout(context.Background(), patience)
+					err = h.clock.BlockUntilContext(ctx, h.tickers()+w.sleepers)
+					cancel()
+					if err == nil {
+						break
+					}
+				}
 				if err != nil {
 					h.stuck = fmt.Sprintf("fewer than %d goroutines asleep on the clock", w.sleepers)
 				}
@@ -626,20 +643,28 @@ func (h *c26Harness) barrier(waits []c26Wait) {
 			h.stuck = fmt.Sprintf("overshot: %+v, expected one of %+v", o, waits)
 			return
 		}
+		var stopCh chan struct{}
+		if !o.stopped {
+			stopCh = h.stopDone // once seen closed it would make the select spin
+		}
 		select {
 		case <-h.sig:
-		case <-h.stopDone:
-			if o.stopped { // already accounted for; avoid spinning on the closed channel
+			strikes = 0
+			if !timer.Stop() {
 				select {
-				case <-h.sig:
 				case <-timer.C:
-					h.stuck = fmt.Sprintf("stuck at %+v, expected one of %+v", o, waits)
-					return
+				default:
 				}
 			}
+			timer.Reset(patience)
+		case <-stopCh:
 		case <-timer.C:
-			h.stuck = fmt.Sprintf("stuck at %+v, expected one of %+v", o, waits)
-			return
+			strikes++
+			if strikes >= 2 {
+				h.stuck = fmt.Sprintf("stuck at %+v, expected one of %+v", o, waits)
+				return
+			}
+			timer.Reset(patience)
 		}
 	}
 }
